@@ -558,14 +558,18 @@ func Run(r *lib.Report) {
 	btrs := betaTrafficRoutings()
 	bst := betaStatuses()
 	var bjobs [][]int
-	lib.Product([]int{len(bplans), len(btrs), 3, 2, 2, len(bst), 2, 3}, func(i []int) bool {
+	lib.Product([]int{len(bplans), len(btrs), 3, 2, 2, len(bst), 2, 6}, func(i []int) bool {
 		if th || i[0] < 8 || (i[1]+i[2]+i[3]+i[4]+i[5]+i[6]+i[7])%5 == 0 {
 			bjobs = append(bjobs, append([]int{}, i...))
 		}
 		return true
 	})
 	bpatch := []*v1beta1.PatchPodTemplateMetadata{nil, {Annotations: map[string]string{"a": "1"}}, {Labels: map[string]string{"l": "1"}, Annotations: map[string]string{"a": "1"}}}
-	bann := []map[string]string{nil, {"foo": "bar"}, {}}
+	// annotations include style / trafficrouting annotations left behind by an earlier write through v1alpha1
+	// (metadata is shared by both versions), agreeing and disagreeing with the v1beta1 fields
+	bann := []map[string]string{nil, {"foo": "bar"}, {},
+		{v1alpha1.RolloutStyleAnnotation: "partition"}, {v1alpha1.RolloutStyleAnnotation: "canary", "foo": "bar"},
+		{v1alpha1.TrafficRoutingAnnotation: "tr-old"}}
 	buildB := func(i []int) *v1beta1.Rollout {
 		ro := &v1beta1.Rollout{ObjectMeta: metav1.ObjectMeta{Name: "demo", Namespace: "ns", Annotations: bann[i[7]]}}
 		if ro.Annotations != nil {
